@@ -1,30 +1,30 @@
 #!/bin/bash
-# Applies every stored seeded change to /repo in turn, runs all quick checks in parallel, records which
-# checks/rules report it in seeded/MATRIX.md, and undoes the change. /repo must be clean.
+# Applies every stored seeded change to /repo in turn, runs the quick check of the property it breaks
+# (plus the extra checks given as arguments), records which rules report it in seeded/MATRIX.md, and
+# undoes the change. /repo must be clean. usage: seed_matrix.sh [extra Cnn ...]
 set -u
 cd /verif
 [ -z "$(git -C /repo status --porcelain)" ] || { echo "/repo not clean" >&2; exit 2; }
 ./check --build
-props=$(python3 -c "import json;print(' '.join(c['property_id'] for c in json.load(open('MANIFEST.json'))['checks']))")
+extra="$*"
 out=seeded/MATRIX.md
 echo "| seed | breaks | reported by (check: rules) |" > $out
 echo "|------|--------|----------------------------|" >> $out
 tmp=$(mktemp -d)
+trap 'git -C /repo checkout -- . ; rm -rf $tmp' EXIT
 for d in seeded/C*/; do
   id=$(basename $d)
-  git -C /repo apply /verif/$d/patch.diff || { echo "| $id | - | PATCH DOES NOT APPLY |" >> $out; continue; }
-  for p in $props; do ( BCV_OUT=$tmp/$p checker/bcv check $p quick > $tmp/$id.$p.log 2>&1; echo $? > $tmp/$id.$p.rc ) & done
-  wait
-  git -C /repo checkout -- . 
+  prop=$(python3 -c "import json;print(json.load(open('$d/meta.json'))['property'])")
+  git -C /repo apply /verif/$d/patch.diff || { echo "| $id | $prop | PATCH DOES NOT APPLY |" >> $out; continue; }
   hits=""
-  for p in $props; do
-    if [ "$(cat $tmp/$id.$p.rc)" = "1" ]; then
-      rules=$(grep -o "\[C[0-9]*\.[A-Z0-9]*\]" $tmp/$id.$p.log | sort -u | tr -d '[]' | tr '\n' ' ')
+  for p in $prop $extra; do
+    BCV_OUT=$tmp/$p checker/bcv check $p quick > $tmp/$id.$p.log 2>&1; rc=$?
+    if [ "$rc" = "1" ]; then
+      rules=$(grep -v '^KNOWN' $tmp/$id.$p.log | grep -o "\[C[0-9]*\.[A-Z0-9]*\]" | sort -u | tr -d '[]' | tr '\n' ' ')
       hits="$hits $p: $rules;"
     fi
   done
-  prop=$(python3 -c "import json;print(json.load(open('$d/meta.json'))['property'])")
+  git -C /repo checkout -- .
   echo "| $id | $prop | ${hits:-**not reported**} |" >> $out
   echo "$id -> ${hits:-MISSED}"
 done
-rm -rf $tmp
